@@ -13,6 +13,7 @@ import Cnl2aspModel.Compiler.Temporal
 import Cnl2aspModel.Compiler.Surface
 import Cnl2aspModel.Compiler.Scope
 import Cnl2aspModel.Compiler.Explain
+import Cnl2aspModel.Compiler.Link
 
 open Lean Cnl2aspModel
 
@@ -286,6 +287,39 @@ def c15printer (j : Json) : Json :=
               ("cap", Json.str (chars (capFirst (jstr j "sentence").toList))),
               ("verb", Json.str (convertVerb (jstr j "verb")))]
 
+namespace C08
+open Link
+
+def chainOpt (j : Json) (k kn : String) : Option Chain := if jbool j kn then none else some (jstrs j k)
+
+def atomOf (j : Json) : Atom × Nat :=
+  let attrs : List Attr := match j.getObjVal? "attrs" with
+    | .ok (Json.arr a) => a.toList.map fun x =>
+        let ch := jstrs x "origin"
+        ⟨jstr x "name", jstr x "value", if ch.isEmpty then none else some ch⟩
+    | _ => []
+  (⟨jstr j "name", attrs⟩, jnat j "nkeys")
+
+def origin (j : Json) : Json :=
+  let a := chainOpt j "a" "a_none"
+  let b := chainOpt j "b" "b_none"
+  let eq := match a, b with
+    | some x, some y => originEq (· == ·) x y
+    | none, none => true
+    | _, _ => false
+  Json.mkObj [("same", Json.bool (isSameOrigin (· == ·) a b)), ("eq", Json.bool eq)]
+
+def link (j : Json) : Json :=
+  let (a1, k1) := match j.getObjVal? "a1" with | .ok x => atomOf x | _ => (⟨"", []⟩, 0)
+  let (a2, k2) := match j.getObjVal? "a2" with | .ok x => atomOf x | _ => (⟨"", []⟩, 0)
+  let keysOf (a : Atom) (k : Nat) : List (String × Option Chain) :=
+    let ks := if k == 0 then a.attrs else a.attrs.take k
+    ks.map fun x => (x.name, x.origin)
+  let st := linkTwoAtoms (· == ·) a1 a2 (keysOf a1 k1) (keysOf a2 k2) [] 0
+  Json.mkObj [("a1", Json.arr (st.a2.attrs.map fun x => Json.str x.value).toArray),
+              ("a2", Json.arr (st.a1.attrs.map fun x => Json.str x.value).toArray)]
+end C08
+
 open LineCol in
 def linecol (j : Json) : Json :=
   let s := (jstr j "s").toList
@@ -312,6 +346,8 @@ def dispatch (op : String) (j : Json) : Json :=
   | "c09.keys" => Ops.c09keys j
   | "c17.check" => Ops.C17.run j
   | "c15.printer" => Ops.c15printer j
+  | "c08.origin" => Ops.C08.origin j
+  | "c08.link" => Ops.C08.link j
   | _ => Json.mkObj [("err", "bad-op")]
 
 partial def loop (h : IO.FS.Stream) (out : IO.FS.Stream) : IO Unit := do
